@@ -38,6 +38,7 @@ import (
 	"path/filepath"
 	"reflect"
 	"regexp"
+	"runtime"
 	"sort"
 	"strconv"
 	"strings"
@@ -2482,8 +2483,21 @@ func main() {
 		&rtCase{pt: typeByName("UdpTxSqlPack"), ver: 20102, rec: fullRec(typeByName("UdpTxSqlPack"), map[string]string{"Dbc": "s61", "Sql": "s62", "Fetch": "i5"}), tail: nil},
 		&rtCase{pt: typeByName("UdpTxResultSetPack"), ver: 50100, rec: fullRec(typeByName("UdpTxResultSetPack"), map[string]string{"Dbc": "s61", "Sql": "s62", "Fetch": "i7"}), tail: []byte{9}},
 	)
-	runStage("rt", func() { stageRT(cases) })
-	runStage("topack", func() { stageToPack(cases) })
+	// in chunks: the driver lines of a chunk (hex of up to 64 KiB per field) are freed before the next
+	const chunk = 2500
+	for lo := 0; lo < len(cases); lo += chunk {
+		hi := lo + chunk
+		if hi > len(cases) {
+			hi = len(cases)
+		}
+		part := cases[lo:hi]
+		runStage("rt", func() { stageRT(part) })
+		runStage("topack", func() { stageToPack(part) })
+		for i := lo; i < hi; i++ {
+			cases[i] = nil
+		}
+		runtime.GC()
+	}
 	runStage("proc", stageProcess)
 	runStage("pool", stagePool)
 	runStage("pool2", stagePool2)
